@@ -887,6 +887,10 @@ def run_session(prop: str, spec: dict, rng: random.Random, nops: int, res: Resul
                 ops.append({"op": "redo", "_probe": 1}); outs.append(r); states.append(ses.state()); res.evaluations += 1
             if kind == "paint" and not accepted and not np.array_equal(before_seg, tracks.segmentation):
                 fail("paint|refused-array-changed", f"refused {op} ({out}) left the array changed after the caller restored the stroke")
+            if kind in EDIT_OPS and not accepted and not stop:
+                # a refused edit (stroke taken back by the caller) leaves labels and nodes in correspondence
+                for p in seg_problems(case, tracks):
+                    fail(f"{kind}|refused|{p.split(':')[0]}", f"after the refused {op} ({out}): {p}")
         if prop == "C08" and case.cfg == "seg" and accepted:
             for p in rp_problems(case, tracks, [F.K_POS, F.K_AREA] if kind == "enable" and not op.get("recompute") else None):
                 fail(f"{kind}|{p.split(':')[0]}", f"after {op}: {p}")
@@ -2317,6 +2321,12 @@ def worker(args) -> Result:
         guarded_family("controller", controller_sessions, prop, random.Random(seed ^ 0xC7A1), max(6, nsessions // 8), res)
     if prop == "C20" and fixed is None:
         guarded_family("listeners", reentrant_refresh_cases, prop, random.Random(seed ^ 0x2E), max(10, nsessions // 4), res)
+    if prop in ("C10", "C04", "C05", "C06") and fixed is None:
+        # construction itself (registered / activated / computed features, special keys, bookkeeping):
+        # the Lean model of Tracks.__init__ / SolutionTracks.__init__ / from_tracks / enable_features
+        # (FtModel/Construct.lean, family CT) against the real constructors, plus oracles
+        from .construct_corr import construct_cases
+        guarded_family("construct", construct_cases, prop, random.Random(seed ^ 0xC057), max(20, nsessions // 3), res)
     if prop == "C10" and fixed is None:
         guarded_family("prim-frozen", prim_frozen_cases, prop, random.Random(seed ^ 0xF0E), max(20, nsessions // 2), res)
     if prop == "C01" and fixed is None:
